@@ -1441,6 +1441,12 @@ class UTPM(Ring, RawAlgorithmsMixIn):
         return x * y
 
     @classmethod
+    def pow(cls, x, r, out = None):
+        # algopy.pow(x, r) dispatches to this; without it numpy.pow treated x
+        # as a sequence and returned an object array of its elements
+        return x ** r
+
+    @classmethod
     def div(cls, x, y , out = None):
         return x / y
 
